@@ -59,7 +59,7 @@ struct Peer
   std::atomic<uint64_t> idleSinceNs{0};
   std::atomic<int> pendingAtIdle{-1}; // FIONREAD (+SSL_pending) observed when a read found nothing
   std::atomic<bool> eof{false}, ioError{false}, protoError{false}, handshakeDone{false}, aborted{false}, halfClosed{false};
-  std::atomic<bool> drain{false}, holdReads{false}, done{false};
+  std::atomic<bool> drain{false}, holdReads{false}, done{false}, writeGone{false};
   std::atomic<int> cmd{0}; // 0 run, 1 write tail + half-close then read to EOF, 2 read to EOF, 3 quit now
   std::string errText, protoPhase;
   std::thread th;
@@ -157,6 +157,7 @@ struct Peer
       ssize_t r = ::send(fd, b, n, MSG_NOSIGNAL);
       if (r > 0) return int(r);
       if (r < 0 && (errno == EAGAIN || errno == EWOULDBLOCK || errno == EINTR)) { wantPollOut = true; return 0; }
+      if (errno == EPIPE || errno == ECONNRESET) { errText = "write: connection gone"; return -1; }
       errText = std::string("send: ") + strerror(errno); return -2;
     }
     ERR_clear_error();
@@ -165,7 +166,7 @@ struct Peer
     int e = SSL_get_error(ssl, r);
     if (e == SSL_ERROR_WANT_WRITE) { wantPollOut = true; return 0; }
     if (e == SSL_ERROR_WANT_READ) return 0;
-    if (e == SSL_ERROR_SYSCALL || e == SSL_ERROR_ZERO_RETURN) { errText = "tls write: connection gone"; ERR_clear_error(); return -2; }
+    if (e == SSL_ERROR_SYSCALL || e == SSL_ERROR_ZERO_RETURN) { errText = "tls write: connection gone"; ERR_clear_error(); return -1; }
     errText = "SSL_write: " + sslErrors(); protoError = true; protoPhase = "data";
     return -2;
   }
@@ -246,6 +247,7 @@ struct Peer
         size_t want = size_t(std::min<uint64_t>(std::min<uint64_t>(burstLeft, rchunk), rb.size()));
         int n = ioRead(rb.data(), want);
         reads++;
+        if (n > 0) { int one = 1; setsockopt(fd, IPPROTO_TCP, TCP_QUICKACK, &one, sizeof one); } // window updates must not wait for the delayed-ACK timer
         if (n > 0)
         {
           stream.insert(stream.end(), rb.data(), rb.data() + n);
@@ -289,7 +291,8 @@ struct Peer
           if (revLeft > 0) revLeft -= uint64_t(w); else tailLeft -= uint64_t(w);
           if (rng.chance(0.05) && !drain.load()) nextWriteAt = now + rng.range(50, 1500) * 1000ull;
         }
-        else if (w < 0) { if (eof.load() || cmd.load() != 0) { writeShut = true; } else { ioError = !protoError.load(); break; } }
+        else if (w == -1) { writeShut = true; writeGone = true; }  // the other side is gone: the read side will report EOF/reset
+        else if (w < 0) { ioError = !protoError.load(); break; }
       }
       if (c == 1 && revLeft == 0 && tailLeft == 0 && !writeShut) { doHalfClose(); writeShut = true; progressed = true; }
       if (eof.load()) break; // the other side closed: nothing more can arrive
